@@ -717,9 +717,32 @@ func (a *FuncAn) multipleAt(s *State, l Lin, k int64) bool {
 	if k <= 0 {
 		return false
 	}
+	// l differs from an expression whose remainder modulo k was computed only by multiples of k
+	for _, rr := range a.rems {
+		if rr.k != k || len(rr.X.t) == 0 {
+			continue
+		}
+		d := Add(l, rr.X, -1)
+		okd := d.C%k == 0
+		for _, t := range d.t {
+			if t.k%k != 0 {
+				okd = false
+			}
+		}
+		if okd {
+			p := a.proverFor(s)
+			if p.Entails(rr.r) && p.Entails(Scale(rr.r, -1)) {
+				return true
+			}
+		}
+	}
 	red := Konst(((l.C % k) + k) % k)
 	for _, t := range l.t {
 		if t.k%k == 0 {
+			continue
+		}
+		// an integer loop variable that starts at a multiple of k and moves by multiples of k
+		if phi, ok := a.atomVal[t.a].(*ssa.Phi); ok && a.intPhiMultiple(phi, k, 0) {
 			continue
 		}
 		replaced := false
@@ -743,6 +766,76 @@ func (a *FuncAn) multipleAt(s *State, l Lin, k int64) bool {
 		return true
 	}
 	return p.Entails(red.plus(-k)) && p.Entails(Scale(red, -1).plus(k))
+}
+
+// intPhiMultiple: the integer phi is a multiple of k on every edge: its values from outside the loop are (judged in the
+// state of that edge), and every value from inside differs from the phi itself by a constant multiple of k.
+func (a *FuncAn) intPhiMultiple(phi *ssa.Phi, k int64, depth int) bool {
+	if depth > 2 || k <= 0 {
+		return false
+	}
+	if a.phiMulBusy == nil {
+		a.phiMulBusy = map[*ssa.Phi]bool{}
+	}
+	if a.phiMulBusy[phi] {
+		return false
+	}
+	a.phiMulBusy[phi] = true
+	defer delete(a.phiMulBusy, phi)
+	pl := a.Lin(phi)
+	for i, e := range phi.Edges {
+		pred := phi.Block().Preds[i]
+		el := a.Lin(e)
+		d := Add(el, pl, -1)
+		if d.IsConst() {
+			if d.C%k != 0 {
+				return false
+			}
+			continue // phi + multiple of k (also the phi itself)
+		}
+		ps := a.out[pred]
+		if ps == nil {
+			continue // unreachable edge
+		}
+		if !a.multipleAt(ps, el, k) {
+			return false
+		}
+	}
+	return true
+}
+
+// strideIntLemma: x != 0 was learnt for an integer phi that is a multiple of k (its stride) and non-negative: it is at
+// least k. (`for end != 0 && … { end -= 2 }` with an even start.)
+func (a *FuncAn) strideIntLemma(s *State, x ssa.Value) {
+	phi, ok := a.cv(x).(*ssa.Phi)
+	if !ok {
+		return
+	}
+	if _, _, isInt := a.E.intInfo(phi.Type()); !isInt {
+		return
+	}
+	pl := a.Lin(phi)
+	var k int64
+	for _, e := range phi.Edges {
+		d := Add(a.Lin(e), pl, -1)
+		if d.IsConst() && d.C != 0 {
+			c := d.C
+			if c < 0 {
+				c = -c
+			}
+			if k == 0 || c < k {
+				k = c
+			}
+		}
+	}
+	if k < 2 || k > 1<<20 || !a.intPhiMultiple(phi, k, 0) {
+		return
+	}
+	p := a.proverFor(s)
+	if p.Entails(pl) { // phi >= 0 and != 0 and a multiple of k
+		delete(a.provers, s)
+		s.AddFact(pl.plus(-k))
+	}
 }
 
 // lenMultiple: the length of sequence value v is a multiple of the constant k, judged where v is defined (for a phi:
@@ -806,7 +899,10 @@ func (a *FuncAn) chunkLemma(s *State, v ssa.Value) {
 		return
 	}
 	kl := a.Lin(kv)
-	if k, isC := ConstInt(kv); isC {
+	if k, isC := ConstInt(kv); isC || kl.IsConst() {
+		if !isC {
+			k = kl.C // e.g. len(s) of a slice made with a constant length
+		}
 		if k < 1 || !a.lenMultiple(s0, k, ps, 0) {
 			return
 		}
